@@ -94,6 +94,7 @@ class World:
         self.back_log = []         # identity checks recorded by A's recv
         self.closed = False
         self.err = []              # real-only observations that contradict the property
+        self._qcache = {}
         w = self
 
         def sink(*xs):             # B: keeps every proxy it is sent
@@ -226,6 +227,8 @@ class World:
                 return "ok"
         except EOFError:
             return "closed"
+        except Exception as ex:  # noqa  (the real code misbehaved: an outcome, not a harness crash)
+            return "raised:" + type(ex).__name__.split(".")[-1]
         raise ValueError("unknown op %r" % (o,))
 
     # -- observation
@@ -241,6 +244,7 @@ class World:
             local.append(tuple(val))
 
     def _frames(self, side):
+        """payloads of the frames waiting in `side`'s inbox"""
         buf = bytes(self.net.streams[side].inbox)
         import struct
         i, out = 0, []
@@ -250,15 +254,25 @@ class World:
             if comp:
                 import zlib
                 payload = zlib.decompress(payload)
-            out.append(self.brine.load(payload))
+            out.append(payload)
             i += 5 + n + 1
         return out
 
     def queue_text(self, side):
         """decode the frames waiting in `side`'s inbox into the model's notation"""
+        out = []
+        for payload in self._frames(side):
+            text = self._qcache.get((side, payload))
+            if text is None:
+                text = self._queue_item(side, *self.brine.load(payload))
+                self._qcache[(side, payload)] = text
+            out.append(text)
+        return out
+
+    def _queue_item(self, side, msg, seq, args):
         c = self.consts
         out = []
-        for msg, seq, args in self._frames(side):
+        if True:
             if side == "B":                       # owner -> peer
                 if msg == c.MSG_REQUEST:
                     handler, boxed = args
@@ -293,7 +307,7 @@ class World:
                     out.append("reply")
                 else:
                     out.append("exc?")
-        return out
+        return out[0]
 
     def live_proxy(self, k):
         w = self.cb._proxy_cache._dict.get(self.packs[k])
@@ -325,7 +339,10 @@ class World:
         """ids the peer application can still reach: held proxies and proxies inside ready results"""
         out = set(self.held)
         for res in self.results:
-            self._collect_ids(res.value, out)
+            try:
+                self._collect_ids(res.value, out)
+            except Exception as ex:  # noqa
+                self.err.append("a result the peer kept is an exception: %s" % type(ex).__name__.split(".")[-1])
         return out
 
     def _collect_ids(self, v, out):
@@ -484,46 +501,71 @@ def closing_phase(w, run_op):
             break
 
 
+def final_phase(w, run_op, n, close_side):
+    """deliver what is in flight; the owner's application forgets its objects; the peer uses every proxy it holds,
+    then drops everything; everything is delivered; close.  The statement's own observations are made on the way."""
+    drain(w, run_op)
+    reach = w.reachable_ids()
+    w.forget()
+    w.check_alive_iff_lent("after the owner's application forgot its objects")
+    for k in sorted(reach):
+        if w.alive(k) is False:
+            w.err.append("object %d died while the peer could still reach it" % k)
+    before = len(w.back_log)
+    used = len(w.held)
+    closing_phase(w, run_op)
+    if w.back_log[before:before + used] != [True] * used:
+        w.err.append("a proxy used at the end did not reach its own object: %r" % (w.back_log[before:],))
+    for k in range(n):
+        if w.packs[k] in w.ca._local_objects._dict:
+            w.err.append("object %d still in the owner's table after everything was dropped and delivered" % k)
+        if w.alive_after_gc(k):
+            w.err.append("object %d not collectable after everything was dropped and delivered" % k)
+    run_op(["close", close_side])
+    for name, conn in (("A", w.ca), ("B", w.cb)):
+        if conn._local_objects._dict or conn._proxy_cache._dict:
+            w.err.append("after close, side %s still holds %d objects / %d proxies" % (
+                name, len(conn._local_objects._dict), len(conn._proxy_cache._dict)))
+
+
 def run_history(ops, n=N_OBJS, gen=None, length=0, final=True, close_side="A"):
     """run a history on the real code. `ops` fixed prefix; then `gen(world)` supplies up to `length` more ops.
     Returns (ops actually run, snapshots, real-only findings, world stats)."""
     w = World(n)
     done, snaps = [], []
 
+    class Abort(Exception):
+        pass
+
     def run_op(o):
         out = w.op(o)
         done.append(o)
-        snaps.append(w.snapshot(out))
-        w.check_live_proxies()
+        try:
+            snaps.append(w.snapshot(out))
+            w.check_live_proxies()
+        except Exception as ex:  # noqa
+            snaps.append("%s UNOBSERVABLE:%s" % (out, type(ex).__name__))
+            w.err.append("state could not be observed after %s: %r" % (op_text(o), ex))
+            raise Abort()
+        if out.startswith("raised:"):
+            w.err.append("%s raised %s" % (op_text(o), out[7:]))
+            raise Abort()
     try:
-        for o in ops:
-            run_op(o)
-        for _ in range(length):
-            run_op(gen(w))
+        try:
+            for o in ops:
+                run_op(o)
+            for _ in range(length):
+                run_op(gen(w))
+        except Abort:
+            return done, snaps, list(dict.fromkeys(w.err))
         if final and not w.closed:
-            drain(w, run_op)
-            reach = w.reachable_ids()
-            w.forget()
-            w.check_alive_iff_lent("after the owner's application forgot its objects")
-            for k in sorted(reach):
-                if w.alive(k) is False:
-                    w.err.append("object %d died while the peer could still reach it" % k)
-            before = len(w.back_log)
-            used = len(w.held)
-            closing_phase(w, run_op)
-            if w.back_log[before:before + used] != [True] * used:
-                w.err.append("a proxy used at the end did not reach its own object: %r" % (w.back_log[before:],))
-            for k in range(n):
-                if w.packs[k] in w.ca._local_objects._dict:
-                    w.err.append("object %d still in the owner's table after everything was dropped and delivered" % k)
-                if w.alive_after_gc(k):
-                    w.err.append("object %d not collectable after everything was dropped and delivered" % k)
-            run_op(["close", close_side])
-            for name, conn in (("A", w.ca), ("B", w.cb)):
-                if conn._local_objects._dict or conn._proxy_cache._dict:
-                    w.err.append("after close, side %s still holds %d objects / %d proxies" % (
-                        name, len(conn._local_objects._dict), len(conn._proxy_cache._dict)))
-        return done, snaps, list(w.err)
+            try:
+                final_phase(w, run_op, n, close_side)
+            except Abort:
+                pass
+            except Exception as ex:  # noqa
+                w.err.append("the closing phase could not be completed: %s" % type(ex).__name__.split(".")[-1])
+        return done, snaps, list(dict.fromkeys(w.err))
     finally:
         w.teardown()
 
@@ -637,9 +679,9 @@ def correspondence(ctx):
                 done, snaps, errs = run_history(prefix, n=n, close_side="AB"[len(cases) % 2])
                 cases.append((done, snaps, errs, tag, n))
             return emit
-        d1, d2 = ctx.budget((6, 4), (8, 6))
-        n1, full1 = exhaustive(1, d1, ALPHABET_1, emit_for(1, "exhaustive-1obj"), t0 + ctx.budget(14, 300))
-        n2, full2 = exhaustive(2, d2, ALPHABET_2, emit_for(2, "exhaustive-2obj"), time.time() + ctx.budget(14, 400))
+        d1, d2 = ctx.budget((5, 5), (7, 6))
+        n1, full1 = exhaustive(1, d1, ALPHABET_1, emit_for(1, "exhaustive-1obj"), t0 + ctx.budget(30, 400))
+        n2, full2 = exhaustive(2, d2, ALPHABET_2, emit_for(2, "exhaustive-2obj"), time.time() + ctx.budget(30, 200))
         c.extra["exhaustive_1obj"] = dict(depth=d1, histories=n1, complete=full1)
         c.extra["exhaustive_2obj"] = dict(depth=d2, histories=n2, complete=full2)
         n_rand = ctx.budget(2000, 40000)
